@@ -53,7 +53,7 @@ def _scn(rng, implicit=False):
         return _Scn2D(rng)
     mname = str(rng.choice(MODELS))
     s = gen.scenario1d(rng, mname=mname, bc=str(rng.choice(["per", "per", "sym", "open"])), nmin=3, nmax=10, fluxes=gen.UPWIND_FLUXES, mach_max=1.0, ratio=3.0,
-                       recons=["extrapol1", "extrapol2", "extrapol3", "muscl_minmod", "muscl_vanalbada", "extrapolk"])
+                       recons=["extrapol1", "extrapol2", "extrapol3", "muscl_minmod", "muscl_vanalbada", "extrapolk"], anysection=0.5)
     s.is2d = False
     s.fresh_disc = lambda: md.fvm(s.model, s.mesh, s.num, numflux=s.flux, bcL=s.bcL, bcR=s.bcR)
     def other_field(rng):
